@@ -143,3 +143,37 @@ pub proof fn lemma_finish(rs: Seq<Report>, ss: Seq<Statement>, cons: Set<Constra
         }
     }
 }
+
+// ---- C17 at the level of this pass: the findings are a function of the CFG. Two results that both satisfy the contract
+// for the same statements have the same number of reports, and the report for a given `<--` statement has the same
+// code and the same anchor in both — whatever order the hash set was iterated in.
+pub proof fn theorem_pass_deterministic(rs1: Seq<Report>, order1: Seq<Assignment>, cons1: Set<Constraint>, rs2: Seq<Report>, order2: Seq<Assignment>, cons2: Set<Constraint>, ss: Seq<Statement>)
+    requires all_reports_ok(rs1, order1, ss, cons1), all_reports_ok(rs2, order2, ss, cons2),
+    ensures
+        rs1.len() == rs2.len(),
+        cons1 =~= cons2,
+        forall|k1: int, k2: int| 0 <= k1 < rs1.len() && 0 <= k2 < rs2.len() && order1[k1] == order2[k2] ==>
+            rep_code(#[trigger] rs1[k1]) is UnnecessarySignalAssignment == rep_code(#[trigger] rs2[k2]) is UnnecessarySignalAssignment
+            && rep_primary(rs1[k1]) == rep_primary(rs2[k2]) && rep_warning(rs1[k1]) == rep_warning(rs2[k2]),
+        forall|k1: int| 0 <= k1 < rs1.len() ==> order2.contains(#[trigger] order1[k1]),
+{
+    assert(order1.to_set() =~= order2.to_set()) by {
+        assert forall|a: Assignment| order1.to_set().contains(a) == order2.to_set().contains(a) by {
+            assert(order1.contains(a) <==> in_recs(ss, a));
+            assert(order2.contains(a) <==> in_recs(ss, a));
+        }
+    }
+    order1.unique_seq_to_set();
+    order2.unique_seq_to_set();
+    assert forall|k1: int, k2: int| 0 <= k1 < rs1.len() && 0 <= k2 < rs2.len() && order1[k1] == order2[k2] implies
+        rep_code(#[trigger] rs1[k1]) is UnnecessarySignalAssignment == rep_code(#[trigger] rs2[k2]) is UnnecessarySignalAssignment
+        && rep_primary(rs1[k1]) == rep_primary(rs2[k2]) && rep_warning(rs1[k1]) == rep_warning(rs2[k2]) by {
+        assert(report_ok(rs1[k1], order1[k1], cons1));
+        assert(report_ok(rs2[k2], order2[k2], cons2));
+    }
+    assert forall|k1: int| 0 <= k1 < rs1.len() implies order2.contains(#[trigger] order1[k1]) by {
+        assert(order1.contains(order1[k1]));
+        assert(in_recs(ss, order1[k1]));
+        assert(order2.contains(order1[k1]));
+    }
+}
